@@ -202,7 +202,12 @@ impl C01 {
       let o = if da.is_value() && db.is_value() { s.run(&format!("r{} := a {} b", n, op)) } else { Outcome::Error("operand-define-failed".into()) };
       // judge the scalar against the reference (once per distinct pair; counted through a set so that the
       // totals do not depend on which worker happened to see the pair first)
-      let ans = ref_binop(op, kind, &canon_text(kind, l), &canon_text(kind, r));
+      // the reference is computed from the operands as the session holds them: an annotated 64/128-bit literal
+      // reaches its variable already rounded through f64 (that is C13's subject, not this property's)
+      let held = |name: &str, spelled: &str| match s.get(name) { Some(Canon::Num(_, t)) => t, _ => canon_text(kind, spelled) };
+      let (hl, hr) = (held("a", l), held("b", r));
+      if hl != canon_text(kind, l) || hr != canon_text(kind, r) { out.count("operands_changed_by_their_literal(C13)"); }
+      let ans = ref_binop(op, kind, &hl, &hr);
       let case = format!("{}; {}; r := a {} b", define_scalar("a", kind, l), define_scalar("b", kind, r), op);
       match (&ans, &o) {
         (RefAns::Unjudged, _) => { out.set("scalar_unjudged", &case); }
@@ -226,7 +231,8 @@ impl C01 {
     let da = s.run(&define_scalar("a", kind, x));
     for (n, op) in UNOPS.iter().enumerate() {
       let o = if da.is_value() { s.run(&format!("r{} := {}a", n, op)) } else { Outcome::Error("operand-define-failed".into()) };
-      let ans = ref_unop(op, kind, &canon_text(kind, x));
+      let hx = match s.get("a") { Some(Canon::Num(_, t)) => t, _ => canon_text(kind, x) };
+      let ans = ref_unop(op, kind, &hx);
       let case = format!("{}; r := {}a", define_scalar("a", kind, x), op);
       match (&ans, &o) {
         (RefAns::Unjudged, _) => {}
